@@ -11,6 +11,17 @@ regenerated from the repository's current source into coq/Generated/AddrFacts.v.
     inverted test `acctInfo.acctKeyPriv != nil` (an account whose private key IS in
     memory is treated as watch-only).
 
+  * new_scope_stores_last_account: whether creating a key scope with
+    NewScopedKeyManager (through createManagerKeyScope) stores the scope's lastAccount
+    entry (`putLastAccount(ns, &scope, DefaultAccountNum)`), as createManagerNS does for
+    the default scopes.  Without it the first NewAccount / NewAccountWatchingOnly of a
+    custom scope computes (2^32-1)+1 = 0 and overwrites the scope's default account.
+
+  * derive_cache_checks_account_key: whether DeriveFromKeyPathCache derives privately
+    only when the account private key is in memory (`... && acctInfo.acctKeyPriv != nil`,
+    as deriveKeyFromPath does).  Without it the call dereferences a nil key for a
+    cached watch-only (imported xpub) account while the manager is unlocked.
+
 Anything that is not recognised raises, so that the check reports a broken
 obligation instead of silently keeping an old value."""
 import os, re
@@ -43,6 +54,58 @@ def method_body(src, name, path):
         i += 1
     else:
         raise ExtractError("%s: method %s: no body" % (path, name))
+    depth, j = 0, i
+    while j < len(src):
+        if src[j] == "{":
+            depth += 1
+        elif src[j] == "}":
+            depth -= 1
+            if depth == 0:
+                return src[i + 1:j]
+        j += 1
+    raise ExtractError("%s: method %s: unbalanced braces" % (path, name))
+
+
+def func_body(src, name, path):
+    m = re.search(r"^func\s+%s\s*\(" % re.escape(name), src, flags=re.M)
+    if not m:
+        raise ExtractError("%s: func %s not found" % (path, name))
+    i, depth = m.end() - 1, 0
+    while i < len(src):
+        c = src[i]
+        if c == "(":
+            depth += 1
+        elif c == ")":
+            depth -= 1
+        elif c == "{" and depth == 0:
+            break
+        i += 1
+    depth, j = 0, i
+    while j < len(src):
+        if src[j] == "{":
+            depth += 1
+        elif src[j] == "}":
+            depth -= 1
+            if depth == 0:
+                return src[i + 1:j]
+        j += 1
+    raise ExtractError("%s: func %s: unbalanced braces" % (path, name))
+
+
+def method_body_of(src, recv, name, path):
+    m = re.search(r"^func\s+\(\s*\w+\s+\*%s\s*\)\s+%s\s*\(" % (recv, re.escape(name)), src, flags=re.M)
+    if not m:
+        raise ExtractError("%s: method %s.%s not found" % (path, recv, name))
+    i, depth = m.end() - 1, 0
+    while i < len(src):
+        c = src[i]
+        if c == "(":
+            depth += 1
+        elif c == ")":
+            depth -= 1
+        elif c == "{" and depth == 0:
+            break
+        i += 1
     depth, j = 0, i
     while j < len(src):
         if src[j] == "{":
@@ -103,13 +166,48 @@ def main(repo, outdir, write_if_changed):
         val = "false"
     else:
         raise ExtractError("%s: extendAddresses: watch-only test %r not recognised" % (path, t_ext))
-    text = """(** GENERATED by lib/extract_c03.py from waddrmgr/scoped_manager.go - do not edit;
-    bin/extract rewrites it from the current source. *)
+    # the scope's lastAccount entry
+    mpath = os.path.join(repo, "waddrmgr", "manager.go")
+    msrc = strip_comments(open(mpath).read())
+    new_scope = norm(method_body_of(msrc, "Manager", "NewScopedKeyManager", mpath))
+    key_scope = norm(func_body(msrc, "createManagerKeyScope", mpath))
+    if "createManagerKeyScope(" not in new_scope:
+        raise ExtractError("%s: NewScopedKeyManager does not call createManagerKeyScope" % mpath)
+    put = "putLastAccount(ns,&scope,DefaultAccountNum)"
+    n_put = new_scope.count("putLastAccount(") + key_scope.count("putLastAccount(")
+    if n_put == 0:
+        last = "false"
+    elif put in new_scope or put in key_scope:
+        last = "true"
+    else:
+        raise ExtractError("%s: putLastAccount call in NewScopedKeyManager/createManagerKeyScope not recognised" % mpath)
+    # DeriveFromKeyPathCache: the private flag handed to deriveKey
+    cbody = norm(method_body(src, "DeriveFromKeyPathCache", path))
+    m = re.findall(r"private:=(.*?)addrKey,err:=s\.deriveKey\(acctInfo,kp\.Branch,kp\.Index,private\)", cbody)
+    if len(m) != 1:
+        raise ExtractError("%s: DeriveFromKeyPathCache: `private := ...` before deriveKey(acctInfo, kp.Branch, kp.Index, private) not recognised" % path)
+    if m[0] == "!s.rootManager.IsLocked()&&!watchOnly":
+        guard = "false"
+    elif m[0] in ("!s.rootManager.IsLocked()&&!watchOnly&&acctInfo.acctKeyPriv!=nil",
+                  "!s.rootManager.IsLocked()&&!watchOnly&&len(acctInfo.acctKeyEncrypted)>0"):
+        guard = "true"
+    else:
+        raise ExtractError("%s: DeriveFromKeyPathCache: private flag %r not recognised" % (path, m[0]))
+    text = """(** GENERATED by lib/extract_c03.py from waddrmgr/scoped_manager.go and waddrmgr/manager.go -
+    do not edit; bin/extract rewrites it from the current source. *)
 
 (* nextAddresses:   watchOnly := s.rootManager.WatchOnly() || %s
    extendAddresses: watchOnly := s.rootManager.WatchOnly() || %s
    true iff extendAddresses derives from the account private key (and queues for
    unlock) under the same test as nextAddresses. *)
 Definition extend_derives_private_when_unlocked : bool := %s.
-""" % (t_next, t_ext, val)
+
+(* true iff NewScopedKeyManager / createManagerKeyScope store the new scope's lastAccount
+   (putLastAccount(ns, &scope, DefaultAccountNum)) *)
+Definition new_scope_stores_last_account : bool := %s.
+
+(* true iff DeriveFromKeyPathCache asks deriveKey for a private derivation only when the
+   account private key is in memory *)
+Definition derive_cache_checks_account_key : bool := %s.
+""" % (t_next, t_ext, val, last, guard)
     write_if_changed(os.path.join(outdir, "AddrFacts.v"), text)
